@@ -150,6 +150,23 @@ CHECKS = {
             rapid("concurrent-race", "^TestC11Concurrent$", 3000, 8, race=True, timeout=3000),
         ],
     },
+    "C13": {
+        "quick": [
+            plain("regress", "^(TestRegressC13|TestC13MultiExhaustive)$"),
+            rapid("writers", "^TestC13Writers$", 2500, 2),
+            rapid("multi", "^TestC13Multi$", 30000, 1),
+            rapid("wrappers", "^TestC13Wrappers$", 30000, 1),
+            rapid("lock", "^TestC13LockConcurrent$", 300, 1),
+        ],
+        "thorough": [
+            plain("regress", "^(TestRegressC13|TestC13MultiExhaustive)$"),
+            rapid("writers", "^TestC13Writers$", 30000, 8, timeout=3000),
+            rapid("multi", "^TestC13Multi$", 500000, 4, timeout=3000),
+            rapid("wrappers", "^TestC13Wrappers$", 300000, 2, timeout=3000),
+            rapid("lock-race", "^TestC13LockConcurrent$", 3000, 4, race=True, timeout=3000),
+            fuzz("fuzz", "^FuzzC13$", "60s"),
+        ],
+    },
     "C14": {
         "quick": [
             plain("regress", "^TestRegressC14"),
@@ -212,6 +229,7 @@ CHECKS = {
 LEVELS = {"C10": "fault_enumeration"}
 
 RULES = {
+    "C13": "cases = payloads (empty, whitespace-only, with/without trailing newline or CRLF, leading/trailing spaces, up to 1 MiB, arbitrary bytes) on zapio.Writer (enabled and disabled), the std-log bridge writer (NewStdLog, NewStdLogAt, RedirectStdLog+log.Writer), zaptest.TestingWriter (plain and markFailed) and BufferedWriteSyncer (sizes 0..256 KiB); multi-syncers of 1-5 scripted sinks over 1-4 calls with a full outcome vector per sink and call (count in {len, 0, 1, len-1}, error or nil, Sync error or nil) and exhaustive enumeration of all 16^k vectors for k<=2 (+ a slice of k=3); AddSync/Lock relays over scripted results; 2-8 goroutines of Write/Sync through Lock onto an overlap-detecting sink. Non-trivial = the minimum count is not at index 0, or a payload the writer trims/splits. Distinct = distinct outcome matrices / payload classes.",
     "C20": "cases = (a) level texts: the seven names and 'warning' in every letter-case mix, '', near misses (spaces, prefixes, Level(7)), non-ASCII look-alikes (U+0130, dotless i, full-width, zero-width), arbitrary strings and bytes, against targets holding any of the 256 values, through Level.UnmarshalText, Set/flag parsing, ParseLevel, ParseAtomicLevel, AtomicLevel.UnmarshalText, JSON and YAML documents; a sweep of all 256 values through String/CapitalString/MarshalText/JSON/YAML/flag round trips; (b) sequences of 1-8 HTTP requests (GET, PUT, POST, DELETE, HEAD, PATCH, lower-case, unknown methods; JSON/form/other/no content type; well-formed JSON, odd JSON, form body, query parameter, both, garbage, empty) against one AtomicLevel shared with a live derived logger. Oracle = ASCII-only reference parser; HTTP invariants plus accept/reject known by construction. Non-trivial = invalid or mixed-case text; HTTP: a rejected request between two accepted PUTs with different levels. Distinct = distinct text classes / sequence shapes.",
     "C18": "cases = a tree of handlers built by 0-6 random WithGroup (names incl. '' and duplicates) / WithAttrs derivations from random parents, then records (slog levels -8..12 incl. the gaps, hostile messages) with 0-3 attributes logged through every handler twice in drawn orders; attributes are trees of every slog Kind (string, int64, uint64, bool, duration, float64, time, Any of error/stringer/slice/map/nil/struct/bytes), named groups, inline groups, literally empty groups, empty attrs and LogValuers resolving to any of those; core threshold -1..3. Oracle = reference model of the slog.Handler contract (ordered tree), plus key-nesting differential against slog.NewJSONHandler when every attribute is solid; Enabled/handled iff the core enables the mapped level; level mapping swept over -200..200. Non-trivial = deferred group opening (WithGroup then WithAttrs starting with an empty attr), or an empty group/attr via WithAttrs or via a LogValuer. Distinct = distinct (derivation sequence shape, threshold, class flags).",
     "C15": "cases = generated call paths executed for real: a logger prepared by 0-6 Sugar/Desugar/With/WithLazy/Named/WithOptions steps, AddCallerSkip(k) with k in 0..4 below exactly k non-inlined wrapper frames, below a recursion of depth {0,1,10,50,63,64,65,200,1000}, through every front end (Logger level methods, Log, Check+Write, all 33 Sugar methods, NewStdLog/NewStdLogAt Print/Printf/Println/Output, RedirectStdLog+log.Print, globals L/S, slog.Logger methods over the zapslog handler), stack-trace enabler = arbitrary level subset or threshold; plus a deterministic sweep of every front end x skip 0..2 x depth {0,100}. Oracle = the site captured on the same source line with an independent runtime.Callers walk. Non-trivial = (a Sugar/Desugar conversion and skip >= 1) or (depth >= 64 with the stack enabled). Distinct = distinct (front end, skip, depth, conversions, stack on/off, conversion chain).",
@@ -240,6 +258,11 @@ ASSUMPTIONS = {
 TRUST = "Trusted base: Go toolchain/runtime, rapid's generators and shrinker, the reference model/oracle code in /verif/harness/props, and the standard-library packages used as reference implementations. Search-based: absence of a counterexample in the generated cases is not a proof."
 
 META = {
+    "C13": {
+        "technique": "property-based testing (rapid) with scripted sinks: io.Writer contract predicate on every zap writer, reference min/aggregate model for the multi syncer with exhaustive small outcome vectors, relay and mutual-exclusion checks for AddSync/Lock, fuzzing",
+        "level_text": "Each zap-provided writer must return (len(p), nil) for every generated payload it accepts; the multi syncer must call every sink exactly once per call with identical bytes regardless of earlier failures, return the smallest reported count and an error that is nil iff all were nil and otherwise names every failing sink, and Sync must reach every sink; AddSync must return writers that already have Sync unchanged and otherwise add a nil no-op Sync while relaying results; Lock must relay results, not double wrap, and never let two calls overlap in the wrapped sink. Exploration plus exhaustive enumeration of the small outcome-vector space.",
+        "level_note": TRUST + " D4: a multi syncer of zero sinks is outside the domain.",
+    },
     "C20": {
         "technique": "property-based testing (rapid): reference level parser with ASCII-only folding across every parsing entry point, round-trip sweep of all 256 values; generated HTTP request sequences with invariants and by-construction expectations; coverage-guided fuzzing of (method, content type, body)",
         "level_text": "Every parsing entry point must agree with a reference parser written from the documentation (valid text gives exactly that level; anything else is an error and leaves the target untouched); every valid level round-trips through all its text forms. For every generated request the handler must answer GET with 200 and the level in force, accept a PUT only by answering 200 with a valid level equal to the level now in force (and to the by-construction expectation for structurally built requests), and otherwise answer 4xx with a JSON error and leave the level unchanged; a live logger sharing the AtomicLevel must honour the level on its very next call. Exploration over unbounded texts and request histories.",
